@@ -212,9 +212,11 @@ func StdMenu(u *prog.Universe, t *prog.Table, pfx string) []chain.GenContract {
 }
 
 // Project reads the committed state of every address of the universe.
-func (w *World) Project() trace.M {
+func (w *World) Project() trace.M { return w.ProjectAt(w.C.Ctx()) }
+
+// ProjectAt reads the state of every address of the universe from the given context.
+func (w *World) ProjectAt(ctx sdk.Context) trace.M {
 	c := w.C
-	ctx := c.Ctx()
 	accts := trace.M{}
 	for _, name := range w.U.Names() {
 		a := w.U.A(name)
@@ -256,9 +258,9 @@ func (w *World) Project() trace.M {
 	}
 	return trace.M{
 		"accts":   accts,
-		"supply":  trace.I(c.Supply(chain.Denom)),
-		"supply2": trace.I(c.Supply(chain.Denom2)),
-		"baseFee": trace.I(c.BaseFee()),
+		"supply":  trace.I(c.App.BankKeeper.GetSupply(ctx, chain.Denom).Amount.BigInt()),
+		"supply2": trace.I(c.App.BankKeeper.GetSupply(ctx, chain.Denom2).Amount.BigInt()),
+		"baseFee": trace.I(c.App.FeeMarketKeeper.GetBaseFee(ctx).BigInt()),
 	}
 }
 
